@@ -236,6 +236,7 @@ Proof.
   - intros a Ha Hw. cbn [wf_elem] in Hw. split.
     + intros s. rewrite enc_elem_arr, ev_elem_arr. rewrite (Ha Hw s). destruct (ev_arr c a). reflexivity.
     + intros v. rewrite ev_elem_arr. destruct a as [es ret stop]. rewrite ev_arr_eq. destruct (ev_elems' stop es). intros [= <-]. apply pv_arr_tail.
+  - intros msg _. split; [intros s; reflexivity|intros v [=]].
 Qed.
 
 Corollary refine_flds fs : wf_flds fs = true -> forall p o base s, pre_ok p -> R p o base s ->
